@@ -105,7 +105,7 @@ def changeRate (sr : Nat) (e : SysFx α n) : SysFx α n := { e with fx := (fxOps
 end SysFx
 
 /-- the spatial data of a spatial track and the audio-thread ends of its two command slots.
-    mirrors: track/sub.rs::SpatialData, track/sub.rs::CommandReaders (`set_position`, `set_spatialization_strength`) -/
+    mirrors: track/sub.rs::SpatialData (+ the `set_position` / `set_spatialization_strength` readers of its `CommandReaders`) -/
 structure SysSpatial (α : Type) where
   sd : SpatialData α
   cmdPos : Cmd α (Vec3 α)
